@@ -2,7 +2,9 @@ pub mod c01;
 pub mod c02;
 pub mod c03;
 pub mod c04;
+pub mod c05;
 pub mod c06;
+pub mod c09;
 pub mod c10;
 pub mod c11;
 pub mod c12;
@@ -18,7 +20,9 @@ pub fn lookup(id: &str) -> Option<(&'static PropSpec, fn(&RunCfg) -> Report)> {
         "C02" => (&c02::SPEC, c02::run as fn(&RunCfg) -> Report),
         "C03" => (&c03::SPEC, c03::run as fn(&RunCfg) -> Report),
         "C04" => (&c04::SPEC, c04::run as fn(&RunCfg) -> Report),
+        "C05" => (&c05::SPEC, c05::run as fn(&RunCfg) -> Report),
         "C06" => (&c06::SPEC, c06::run as fn(&RunCfg) -> Report),
+        "C09" => (&c09::SPEC, c09::run as fn(&RunCfg) -> Report),
         "C10" => (&c10::SPEC, c10::run as fn(&RunCfg) -> Report),
         "C11" => (&c11::SPEC, c11::run as fn(&RunCfg) -> Report),
         "C12" => (&c12::SPEC, c12::run as fn(&RunCfg) -> Report),
